@@ -68,8 +68,21 @@ class Result:
         return f"Result({self.kind}, {self.value!r}, {self.status}, {self.reason!r})"
 
 
+def _raised_in_repo(exc):
+    """True iff the innermost frame of the traceback is code of the repository under test"""
+    from vlib import loader
+
+    tb = exc.__traceback__
+    last = None
+    while tb is not None:
+        last = tb.tb_frame.f_code.co_filename
+        tb = tb.tb_next
+    return bool(last) and str(last).startswith(str(loader.REPO))
+
+
 class BatchWorld:
     def __init__(self, seed=0, n_tokens=3, repo=None, eng=None):
+        self.crashes = []
         """eng: attach to the engine (database) of another world instead of building a new one (a second service process)"""
         self.eng = eng if eng is not None else build_engine(seed=seed, repo=repo, n_tokens=n_tokens)
         self.loop = VLoop()
@@ -146,6 +159,12 @@ class BatchWorld:
             if isinstance(e, ValueError) and isinstance(e.__cause__, pe.MySQLError):
                 c = e.__cause__
                 return Result("sqlerror", None, c.args[0] if c.args else None, str(c))
+            if _raised_in_repo(e):
+                # the code under test crashed (an exception that is neither an HTTP answer nor a database error): an outcome of the
+                # operation, reported to the caller - not a failure of the verification machinery
+                r = Result("crash", None, type(e).__name__, f"{type(e).__name__}: {e}"[:300])
+                self.crashes.append(r)
+                return r
             raise
 
     def userdata(self, user="u1"):
